@@ -225,6 +225,7 @@ func c10Prop(t *testing.T, r *hx.Run) func(c c10Case) hx.Verdict {
 			w.Settle()
 			// stage of every connection at the last stable point before the stop
 			stage := map[int]string{}
+			fine := map[int]string{} // opensent / openconfirm / established
 			for _, cn := range w.Net.Conns() {
 				st := cn.Snapshot()
 				msgs, _ := wire.ParseStream(st.Bytes())
@@ -233,6 +234,14 @@ func c10Prop(t *testing.T, r *hx.Run) func(c c10Case) hx.Verdict {
 					stage[st.ID] = "none"
 				case len(msgs) >= 1 && msgs[len(msgs)-1].Type != wire.TypeNotification:
 					stage[st.ID] = "session" // OpenSent, OpenConfirm or Established
+					switch {
+					case len(msgs) == 1:
+						fine[st.ID] = stOpenSent
+					case w.Sessions(st.Remote.Addr().String()) > 0:
+						fine[st.ID] = stEstablished
+					default:
+						fine[st.ID] = stOpenConfirm
+					}
 				default:
 					stage[st.ID] = "none"
 				}
@@ -253,6 +262,7 @@ func c10Prop(t *testing.T, r *hx.Run) func(c c10Case) hx.Verdict {
 				}
 			}
 			touched := map[int]bool{}
+			progressed := map[int]bool{}
 			fireConc := func() {
 				for _, x := range c.Conc {
 					if x.Peer >= len(specs) {
@@ -281,7 +291,16 @@ func c10Prop(t *testing.T, r *hx.Run) func(c c10Case) hx.Verdict {
 					if cn == nil {
 						continue
 					}
-					touched[cn.ID] = true
+					// a message that is legal progress in the connection's state
+					// does not end it: the stop must still send its Cease. Anything
+					// else may end the connection on its own account.
+					legal := (x.Kind == "open" && fine[cn.ID] == stOpenSent) ||
+						(x.Kind == "keepalive" && fine[cn.ID] != stOpenSent) ||
+						(x.Kind == "update" && fine[cn.ID] == stEstablished)
+					if !legal || progressed[cn.ID] {
+						touched[cn.ID] = true
+					}
+					progressed[cn.ID] = true // a second event meets a state we did not observe
 					switch x.Kind {
 					case "open":
 						cn.RemoteSend(world.RemoteOpen(sp, cn, 90, 0x0a000002).Frame(), nil)
